@@ -128,6 +128,35 @@ func C11Scenarios(tier string) []*h.Scenario {
 		}
 		out = append(out, s)
 	}
+	// fewer nodes than min_nodes, the cloud target below min_nodes too; and a small group where
+	// cordons push the untainted count below the minimum
+	for _, v := range []string{"under-min", "cordon-below-min"} {
+		g := StdGroup("g1")
+		g.Opts.DryMode = true
+		s := &h.Scenario{Name: "c11." + v, Slots: 6, Quantum: Q, MaxEventsPerSlot: 2}
+		n := 3
+		if v == "under-min" {
+			g.Opts.MinNodes = 3
+			g.ASG.Min = 1
+			n = 2
+		} else {
+			g.Opts.MinNodes = 2
+		}
+		gg := g
+		s.Groups = []h.GroupSpec{gg}
+		s.Init = func(hh *h.Hist) {
+			a := InitASGs(hh)[0]
+			for i := 0; i < n; i++ {
+				nd := hh.W.AddNode(a, sim.NodeOpt{Age: time.Duration(20+i) * Q})
+				hh.W.AddPod(podOn(gg, nd.Name, 300))
+			}
+		}
+		names := initialNames(gg.ASG.Name, n)
+		s.Events = func(hh *h.Hist, slot int) []h.Event {
+			return append(fixedNodeEvents(gg, names), evRestart(), evRegisterNode(gg), evASGEdit(gg.ASG.Name, 0, 8))
+		}
+		out = append(out, s)
+	}
 	// zero nodes, never seen a node: scale from zero
 	{
 		g := StdGroup("g1")
